@@ -34,7 +34,9 @@ REQUIRED_MONITORS = ["default_record", "preset_values_as_declared", "config_pars
                      "config_invariants", "fault_raises_ConfigError"]
 
 PARAM_VALUES = {
-    "phase_assemblage": [('["olivine"]', None), ('["olivine", "enstatite"]', None), ('["enstatite", "olivine"]', None), ('["enstatite"]', None)],
+    # phases by name or by their integer code (both forms are parsed into enumeration members)
+    "phase_assemblage": [('["olivine"]', None), ('["olivine", "enstatite"]', None), ('["enstatite", "olivine"]', None), ('["enstatite"]', None),
+                         ('[0]', None), ('[0, 1]', None), ('[1, 0]', None), ('["olivine", 1]', None), ('[1]', None)],
     "stress_exponent": [("1.4", 1.4), ("2.0", 2.0)],
     "deformation_exponent": [("3.0", 3.0), ("4.5", 4.5)],
     "gbm_mobility": [("10", 10), ("0", 0), ("200", 200)],
@@ -89,7 +91,7 @@ def gen_cases(ctx):
         yield {"kind": "fault", "fault": FAULTS[i % len(FAULTS)], "seed": int(rng.integers(1 << 31))}
 
 
-FAULTS = ["fractions_sum", "fractions_sum_small", "length_mismatch", "length_mismatch2", "unknown_phase", "unknown_phase_int", "unknown_fabric",
+FAULTS = ["fractions_sum", "fractions_sum_small", "length_mismatch", "length_mismatch2", "unknown_phase", "unknown_phase_int", "phase_code_float", "phase_code_negative", "phase_code_nested", "unknown_fabric",
           "output_phase_not_simulated", "diag_phase_not_simulated", "unknown_output_phase", "coefficient_count", "missing_input",
           "missing_timestep", "non_numeric_timestep", "non_numeric_strain_final"]
 
@@ -283,7 +285,8 @@ def _config(ctx, pydrex, case, scratch):
     P = core.MineralPhase
     if "phase_assemblage" in chosen:
         txt = chosen["phase_assemblage"][0]
-        phases = [getattr(P, s.strip(' "')) for s in txt.strip("[]").split(",")]
+        phases = [P(int(s)) if s.strip().isdigit() else getattr(P, s.strip(' "')) for s in txt.strip("[]").split(",")]
+        ctx.cls("phases_by_integer_code" if any(s.strip().isdigit() for s in txt.strip("[]").split(",")) else "phases_by_name")
         fr = [1.0] if len(phases) == 1 else [[0.7, 0.3], [0.5, 0.5], [0.25, 0.75]][int(rng.integers(3))]
         chosen["phase_fractions"] = (str(fr), fr)
         exp_phases = tuple(phases)
@@ -435,6 +438,12 @@ def _fault(ctx, pydrex, case, scratch):
         params += ['phase_assemblage = ["olivine", "garnet"]', "phase_fractions = [0.7, 0.3]"]
     elif f == "unknown_phase_int":
         params += ["phase_assemblage = [0, 7]", "phase_fractions = [0.7, 0.3]"]
+    elif f == "phase_code_float":
+        params += ["phase_assemblage = [0, 1.0]", "phase_fractions = [0.7, 0.3]"]
+    elif f == "phase_code_negative":
+        params += ["phase_assemblage = [0, -1]", "phase_fractions = [0.7, 0.3]"]
+    elif f == "phase_code_nested":
+        params += ['phase_assemblage = [["olivine"], "enstatite"]', "phase_fractions = [0.7, 0.3]"]
     elif f == "unknown_fabric":
         params += ['initial_olivine_fabric = "Q"']
     elif f == "output_phase_not_simulated":
